@@ -21,10 +21,10 @@ CHECKS = {
     cat="proof",
     text="Theorems over R about the 1D step model (props/C02.v): every cooling step changes the heat content by EXACTLY dt (K (T_shelf - T_0) + q_e) for any number of grid points (telescoping); the "
          "ghost points carry exactly the boundary fluxes; nucleation is adiabatic (cp m (T' - T) = Dh m_ice(T')); the apparent heat capacity cp*BETA is the derivative of the equilibrium enthalpy. "
-         "PARTIAL: the solidification update is non-conservative and the 2D model has no Coq step model: their balance is audited on the implementation (15 % / 10 %). Tied to the code by one-step "
+         "PARTIAL: the solidification update is non-conservative and the 2D model (model/Sn2D.v, one-step correspondence) has no balance theorem: their balance is audited on the implementation (15 % / 10 %). Tied to the code by one-step "
          "binary64 correspondence of the 1D model on saved steps and by evaluating the exact cooling balance on every saved step (observed error 3e-11).",
     ref="6 C02", technique="Rocq proof over R (telescoping sums, field, Coquelicot derivative) + one-step float correspondence + enthalpy audits",
-    note=TB % "c02" + "2D (shelf/jacket) by oracle only; enthalpy increments use the scheme's constant latent heat."),
+    note=TB % "c02" + "2D (shelf/jacket): one-step correspondence + audit; enthalpy increments use the scheme's constant latent heat."),
  "C03": dict(
     cat="proof",
     text="Theorems over R (props/C03.v): a vial nucleates in a step iff it is liquid, supercooled after the liquid update and its uniform draw is below "
@@ -66,10 +66,10 @@ CHECKS = {
     cat="proof",
     text="Theorems over R (props/C07.v): discrete maximum principle of the 1D cooling step under 2F <= 1 and F(1+Bi) <= 1; the post-nucleation temperature of a supercooled point lies strictly between "
          "its old temperature and T_eq_l; ice fraction = liquidus value with 0 < w_i < water fraction below T_eq_l and 0 at or above it; interior points of the solidification step are convex combinations "
-         "under per-point conditions. PARTIAL: boundary points of the solidification stage and the whole 2D model are covered by the bounds oracle only. Tied to the code by one-step binary64 "
+         "under per-point conditions. PARTIAL: boundary points of the solidification stage and the bounds of the 2D model (model/Sn2D.v, tied by one-step correspondence) are covered by the bounds oracle only. Tied to the code by one-step binary64 "
          "correspondence (0D and 1D: cooling incl. vacuum window, nucleation, solidification) and by a bounds / phase-equilibrium oracle on every reported value of 0D, 1D and 2D runs.",
     ref="6 C07", technique="Rocq proof over R (convex combinations, quadratic root location) + one-step float correspondence + bounds oracle",
-    note=TB % "c07" + "2D by oracle only; VISF lower bound not claimed (property excludes it)."),
+    note=TB % "c07" + "2D bounds by oracle; VISF lower bound not claimed (property excludes it)."),
  "C08": dict(
     cat="proof",
     text="Theorems over R (props/C08.v): the rate integral A * quadrature(k (T_eq_l - T)^b on the supercooled mask) is non-negative for non-negative weights; with E = sum K_v dt the nucleation "
@@ -132,11 +132,11 @@ CHECKS = {
  "C15": dict(
     cat="proof",
     text="Theorems over R (props/C15.v): the homogeneous cooling step IS the liquid step of an isolated 1x1x1 Snowflake (k_int = k_ext = 0, H_shelf = K A, hl = m cp); the 0D post-nucleation state "
-         "satisfies the two equations defining the Snowflake's direct formulation (depression curve, sensible = latent heat). PARTIAL: solidification (two Euler forms, O(dt) apart), the thermally-thin "
+         "satisfies the two equations defining the Snowflake's direct formulation (depression curve, sensible = latent heat); a simultaneous evaluation of the 2D cooling stencil keeps a radially uniform field uniform when no heat crosses the wall, while for the in-place sweep the implementation performs (model/Sn2D.v, one-step correspondence with _run_2D) radial uniformity is REFUTED by a 3x3 witness over R. PARTIAL: solidification (two Euler forms, O(dt) apart), the thermally-thin "
          "1D->0D limit and the 2D/1D comparison are checked on paired runs only: 0D vs scripted Snowflake (cooling curve 1e-9, nucleation state, solidification time 1 %), 1D vs 2D of equal cross-section "
          "(radial uniformity, nucleation time, evaporative cooling 10 %). The in-place 2D sweep breaks radial uniformity: known finding.",
     ref="6 C15", technique="Rocq proof over R (field identities) + paired-run oracle",
-    note=TB % "c15" + "no Coq model of the 2D loops; tolerances 1e-9 / 1 % / 10 %."),
+    note=TB % "c15" + "2D model tied by one-step correspondence only; tolerances 1e-9 / 1 % / 10 %."),
  "C16": dict(
     cat="proof",
     text="Theorems for every batch with nx,ny >= 2 (flat or pallet), both arrangements (props/C16.v, axiom-free): every vial's exposure "
